@@ -88,6 +88,7 @@ var standinRe = regexp.MustCompile(`STANDIN inputs=(\d+) bound="([^"]*)"`)
 // runStandins executes the bounded stand-ins registered for a property. They
 // are labelled bounded in the evidence and never counted as proved.
 func runStandins(repoDir, verif, prop, tier string, seed int, known []KnownFinding) (records []map[string]interface{}, failures []string, knownHits []KnownFinding) {
+	records = []map[string]interface{}{}
 	for _, s := range loadRegistry(verif).Standins[prop] {
 		os.Setenv("VERIF_TIER", tier)
 		t0 := time.Now()
